@@ -4,6 +4,7 @@ import (
 	"fmt"
 	"go/ast"
 	"go/token"
+	"go/types"
 	"sort"
 	"strings"
 
@@ -28,7 +29,7 @@ func ruleJoinDispatch(rule string) func(*Ctx) {
 		ctors := map[string]string{"(ClipperOffset).doMiter": "doMiter", "(ClipperOffset).doSquare": "doSquare", "(ClipperOffset).doBevel": "doBevel", "(ClipperOffset).doRound": "doRound"}
 		want := map[string][]string{"Miter": {"concave", "doMiter", "doSquare"}, "Square": {"concave", "doMiter", "doSquare"}, "Bevel": {"concave", "doBevel", "doMiter"}, "Round": {"concave", "doRound"}}
 		for _, jt := range c.enumValues("JoinType") {
-			ex := &explorer{c: c, f: f, atoms: map[string]absVal{co + ".joinType": intVal(jt.val), co + ".deltaCallback": {k: aNil}}}
+			ex := &explorer{c: c, f: f, atoms: map[string]absVal{co + ".joinType": intVal(jt.val), co + ".deltaCallback": {k: aNil}}, canon: canonParams(f, co, "group", "path", "j", "k")}
 			outs := ex.explore(nil)
 			if m := opaqueMentionsAtom(outs, map[string]absVal{co + ".joinType": {}}); m != "" {
 				fatalf("offsetPoint: %s", m)
@@ -205,7 +206,7 @@ func ruleGroupDelta(rule string) func(*Ctx) {
 		// NewGroup: pathsReversed and the closed-path flag
 		ng := c.fn("NewGroup")
 		for _, et := range ets {
-			ex := &explorer{c: c, f: ng, atomFn: func(e string) (absVal, bool) {
+			ex := &explorer{c: c, f: ng, canon: canonParams(ng, "paths", "joinType", "endTypeVal"), atomFn: func(e string) (absVal, bool) {
 				if e == "endTypeVal[0]" {
 					return intVal(et.val), true
 				}
@@ -456,7 +457,7 @@ func ruleEndDispatch(rule string) func(*Ctx) {
 				break
 			}
 			for _, et := range c.enumValues("EndType") {
-				ex := &explorer{c: c, f: f, atoms: map[string]absVal{co + ".endType": intVal(et.val)}, stop: func(b *ssa.BasicBlock) bool { return hdrs[b] }}
+				ex := &explorer{c: c, f: f, atoms: map[string]absVal{co + ".endType": intVal(et.val)}, stop: func(b *ssa.BasicBlock) bool { return hdrs[b] }, canon: canonParams(f, co, "group", "path")}
 				outs := ex.explore(sb)
 				want := "(ClipperOffset).doSquare"
 				switch et.name {
@@ -590,11 +591,52 @@ func ruleMinkowski(rule string) func(*Ctx) {
 	return func(c *Ctx) {
 		fd := c.decl("minkowskiInternal")
 		f := c.fn("minkowskiInternal")
-		// sign: the isSum branch adds, the other subtracts pattern from path, on both axes
+		// sign: the isSum branch adds, the other subtracts pattern from path, on both axes.
+		// Operands are resolved through the type checker: a range variable stands for the parameter it ranges over.
+		paramIdx := func(o types.Object) int {
+			for i, p := range f.Params {
+				if p.Object() == o {
+					return i
+				}
+			}
+			return -1
+		}
+		rangeOf := map[types.Object]int{} // range value variable -> index of the parameter ranged over
+		ast.Inspect(fd.Body, func(n ast.Node) bool {
+			if r, ok := n.(*ast.RangeStmt); ok {
+				if v, ok := r.Value.(*ast.Ident); ok {
+					if x, ok := r.X.(*ast.Ident); ok {
+						if k := paramIdx(c.info.Uses[x]); k >= 0 {
+							rangeOf[c.info.Defs[v]] = k
+						}
+					}
+				}
+			}
+			return true
+		})
+		role := func(e ast.Expr, axis string) string { // "path"/"pattern" when e is <range var>.<axis>
+			sel, ok := e.(*ast.SelectorExpr)
+			if !ok || sel.Sel.Name != axis {
+				return "?"
+			}
+			id, ok := sel.X.(*ast.Ident)
+			if !ok {
+				return "?"
+			}
+			switch k, ok := rangeOf[c.info.Uses[id]]; {
+			case ok && k == 0:
+				return "pattern"
+			case ok && k == 1:
+				return "path"
+			}
+			return "?"
+		}
 		var ifs *ast.IfStmt
 		ast.Inspect(fd.Body, func(n ast.Node) bool {
-			if i, ok := n.(*ast.IfStmt); ok && render(i.Cond) == "isSum" && ifs == nil {
-				ifs = i
+			if i, ok := n.(*ast.IfStmt); ok && ifs == nil {
+				if id, ok := i.Cond.(*ast.Ident); ok && paramIdx(c.info.Uses[id]) == 2 {
+					ifs = i
+				}
 			}
 			return true
 		})
@@ -602,22 +644,47 @@ func ruleMinkowski(rule string) func(*Ctx) {
 		if ifs == nil || ifs.Else == nil {
 			bad = "no `if isSum {...} else {...}` found"
 		} else {
-			lit := func(n ast.Node) string {
+			lit := func(n ast.Node) string { // canonical rendering "X: path+pattern, Y: path+pattern"
 				r := ""
 				ast.Inspect(n, func(m ast.Node) bool {
-					if cl, ok := m.(*ast.CompositeLit); ok && render(cl.Type) == "Point64" {
-						r = render(cl)
+					cl, ok := m.(*ast.CompositeLit)
+					if !ok || render(cl.Type) != "Point64" || len(cl.Elts) != 2 {
+						return true
 					}
+					var parts []string
+					for _, el := range cl.Elts {
+						kv, ok := el.(*ast.KeyValueExpr)
+						if !ok {
+							parts = append(parts, "?")
+							continue
+						}
+						axis := render(kv.Key)
+						v := kv.Value
+						for {
+							p, ok := v.(*ast.ParenExpr)
+							if !ok {
+								break
+							}
+							v = p.X
+						}
+						be, ok := v.(*ast.BinaryExpr)
+						if !ok {
+							parts = append(parts, axis+": "+render(kv.Value))
+							continue
+						}
+						parts = append(parts, axis+": "+role(be.X, axis)+be.Op.String()+role(be.Y, axis))
+					}
+					r = strings.Join(parts, ", ")
 					return true
 				})
 				return r
 			}
 			ls, ld := lit(ifs.Body), lit(ifs.Else)
-			if ls != "Point64{X: (pathPt.X + basePt.X), Y: (pathPt.Y + basePt.Y)}" && ls != "Point64{X: (basePt.X + pathPt.X), Y: (basePt.Y + pathPt.Y)}" {
-				bad = "sum branch builds " + ls
+			if ls != "X: path+pattern, Y: path+pattern" && ls != "X: pattern+path, Y: pattern+path" {
+				bad = "sum branch builds {" + ls + "}, want path point plus pattern point on both axes"
 			}
-			if ld != "Point64{X: (pathPt.X - basePt.X), Y: (pathPt.Y - basePt.Y)}" {
-				bad = "difference branch builds " + ld + ", want path point minus pattern point on both axes"
+			if ld != "X: path-pattern, Y: path-pattern" {
+				bad = "difference branch builds {" + ld + "}, want path point minus pattern point on both axes"
 			}
 		}
 		c.check(bad == "", rule+".sign", rule+".sign:minkowskiInternal:plus-minus", fd.Pos(), "minkowskiInternal", "isSum: path+pattern on both axes; otherwise path-pattern on both axes", bad,
@@ -629,7 +696,7 @@ func ruleMinkowski(rule string) func(*Ctx) {
 			sum bool
 		}{{"MinkowskiSum64", true}, {"MinkowskiDiff64", false}, {"MinkowskiSumD", true}, {"MinkowskiDiffD", false}} {
 			g := c.fn(e.fn)
-			outs := (&explorer{c: c, f: g, atomFn: func(x string) (absVal, bool) {
+			outs := (&explorer{c: c, f: g, canon: canonParams(g, "pattern", "path", "isClosed", "precisionV"), atomFn: func(x string) (absVal, bool) {
 				if strings.HasPrefix(x, "len(") {
 					return intVal(0), true
 				}
@@ -705,29 +772,37 @@ func ruleMinkowski(rule string) func(*Ctx) {
 		c.floor(rule+".norm", n, 2)
 		// closed: delta and the starting predecessor index
 		bad = ""
+		nDelta, nG := 0, 0
 		for _, b := range f.Blocks {
 			for _, in := range b.Instrs {
 				phi, ok := in.(*ssa.Phi)
-				if !ok || (phi.Comment != "delta" && phi.Comment != "g") {
+				if !ok {
 					continue
 				}
-				// only the phi right after the `if isClosed` diamonds (not loop-carried g)
+				// only the phis right after the `if isClosed` diamonds (not loop-carried values); roles by shape:
+				// both arms constant = the step `delta`; otherwise the first predecessor index `g`
 				tv, fv, cond := phiByCond(phi)
-				if cond == nil || !isParamNamed(cond, "isClosed") {
+				if cond == nil || cond != ssa.Value(f.Params[3]) {
 					continue
 				}
-				switch phi.Comment {
-				case "delta":
+				_, tc := tv.(*ssa.Const)
+				_, fc := fv.(*ssa.Const)
+				if tc && fc {
+					nDelta++
 					if !isConstInt(tv, 0) || !isConstInt(fv, 1) {
 						bad = "delta is not 0 for closed / 1 for open paths"
 					}
-				case "g":
+				} else {
+					nG++
 					bo, ok := tv.(*ssa.BinOp)
-					if !ok || bo.Op != token.SUB || !isConstInt(bo.Y, 1) || !isConstInt(fv, 0) {
-						bad = "the first predecessor index is not pathLen-1 for closed / 0 for open paths"
+					if !ok || bo.Op != token.SUB || !isConstInt(bo.Y, 1) || !isLenOf(bo.X, f.Params[1]) || !isConstInt(fv, 0) {
+						bad = "the first predecessor index is not len(path)-1 for closed / 0 for open paths"
 					}
 				}
 			}
+		}
+		if bad == "" && (nDelta != 1 || nG != 1) {
+			bad = fmt.Sprintf("expected one step and one first-predecessor value selected by isClosed, found %d and %d", nDelta, nG)
 		}
 		c.check(bad == "", rule+".closed", rule+".closed:minkowskiInternal:wrap", f.Pos(), "minkowskiInternal", "closed: (delta, g0) = (0, pathLen-1); open: (1, 0)", bad,
 			"a closed path has a segment from its last to its first vertex that must be swept too; an open path must not get one")
@@ -912,7 +987,30 @@ func ruleOpenSkipped(rule string) func(*Ctx) {
 				// only scans that accumulate winding information
 				ll := l
 				inLoop := func(b *ssa.BasicBlock) bool { return !ll.blocks[b] }
-				ex := &explorer{c: c, f: f, atoms: map[string]absVal{"isOpen(ae2)": boolVal(true), "getPolyType(ae2)": intVal(0)}, stop: inLoop}
+				counters := map[string]bool{} // integer header phis: parity/winding counters carried round the loop
+				for _, in := range l.header.Instrs {
+					phi, ok := in.(*ssa.Phi)
+					if !ok {
+						break
+					}
+					if bt, ok := phi.Type().Underlying().(*types.Basic); ok && bt.Info()&types.IsInteger != 0 {
+						name := phi.Comment
+						if name == "" {
+							name = phi.Name()
+						}
+						counters[name] = true
+					}
+				}
+				// the scanned edge (any edge other than the one being inserted) is an open subject edge
+				ex := &explorer{c: c, f: f, atomFn: func(x string) (absVal, bool) {
+					if strings.HasPrefix(x, "isOpen(") && x != "isOpen("+ae+")" {
+						return boolVal(true), true
+					}
+					if strings.HasPrefix(x, "getPolyType(") && x != "getPolyType("+ae+")" {
+						return intVal(0), true
+					}
+					return absVal{}, false
+				}, stop: inLoop}
 				outs := ex.explore(l.header)
 				bad := ""
 				bodies := 0
@@ -928,7 +1026,7 @@ func ruleOpenSkipped(rule string) func(*Ctx) {
 						}
 					}
 					for k, v := range p.backedge {
-						if strings.HasPrefix(k, "cnt") && v.expr != k {
+						if counters[k] && v.expr != k {
 							accumulates = true
 						}
 					}
@@ -947,7 +1045,7 @@ func ruleOpenSkipped(rule string) func(*Ctx) {
 						}
 					}
 					for k, v := range p.backedge {
-						if strings.HasPrefix(k, "cnt") && v.expr != k {
+						if counters[k] && v.expr != k {
 							bad = fmt.Sprintf("an OPEN subject edge is counted in %s", k)
 						}
 					}
@@ -1153,7 +1251,7 @@ func ruleLineExtractor(rule string) func(*Ctx) {
 		}
 		for _, ln := range []int64{1, 2} {
 			ll := outer
-			ex := &explorer{c: c, f: g, atomFn: func(e string) (absVal, bool) {
+			ex := &explorer{c: c, f: g, canon: canonParams(g, "r", "paths"), atomFn: func(e string) (absVal, bool) {
 				if strings.HasPrefix(e, "len(paths[") {
 					return intVal(ln), true
 				}
@@ -1342,7 +1440,7 @@ func ruleHorzOpenEnd(rule string) func(*Ctx) {
 			fatalf("doHorizontal: edge loop not found")
 		}
 		ll := inner
-		ex := &explorer{c: c, f: f, atoms: map[string]absVal{"isOpenEnd(horz)": boolVal(true)}, maxPaths: 20000,
+		ex := &explorer{c: c, f: f, atoms: map[string]absVal{"isOpenEnd(horz)": boolVal(true)}, maxPaths: 20000, canon: canonParams(f, "c", "horz"),
 			atomFn: func(e string) (absVal, bool) {
 				// the horizontal ends at the maxima vertex it was given: vertexMax == horz.vertexTop
 				if strings.Contains(e, "!= horz.vertexTop)") && strings.HasPrefix(e, "(") && !strings.Contains(e, "ae.") {
@@ -1443,4 +1541,18 @@ func ruleSplitRelabel(rule string) func(*Ctx) {
 			"split-off ring is relabelled, then `or1.pts.outrec == or2` is tested and or1.pts re-anchored", bad,
 			"after a self-join both records must own disjoint rings; otherwise one polygon is returned twice (winding 2) and the other piece vanishes")
 	}
+}
+
+// isLenOf: v is len(p) (possibly through a spilled copy of the parameter).
+func isLenOf(v ssa.Value, p *ssa.Parameter) bool {
+	call, ok := v.(*ssa.Call)
+	if !ok {
+		return false
+	}
+	bi, ok := call.Call.Value.(*ssa.Builtin)
+	if !ok || bi.Name() != "len" {
+		return false
+	}
+	a := call.Call.Args[0]
+	return a == ssa.Value(p) || paramOf(a) == p
 }
